@@ -88,6 +88,24 @@ class C02Oracle(Oracle):
                     self.fail("C02.frame", i, op, oc,
                               f"{op['op']} did not address {g.name}{w} but changed it from {self.pre[j][w]!r} to {now[j][w]!r}")
                     return
+        # ---- bounds: whatever happened (accepted, rejected half-way, interrupted), a well can at most have lost
+        # what the call removes from it and gained what the call adds to it - in particular the offending well
+        # of a rejected call and every well that is only a source (only a destination) never grows (shrinks)
+        nst = len(pl["steps"])
+        # (not for transfers under a non-integer worklist max_volume: there the splitter itself asks for single
+        # steps above the requested volume - C06's subject, not claimed here)
+        for (j, w), (a, r) in (net.items() if not (op["op"] == "transfer" and not self.int_max) else ()):
+            g = sess.geos[j]
+            pre = frac(self.pre[j][w])
+            v = now[j][w]
+            if v != v:
+                continue
+            m = Fraction(nst + 3) * Fraction(2) ** -50 * (abs(pre) + min(a, frac(1e300)) + min(r, frac(1e300)) + 1)
+            if frac(v) > pre + a + m or frac(v) < pre - r - m:
+                self.fail("C02.unchanged", i, op, oc,
+                          f"{g.name}{w} went from {self.pre[j][w]!r} to {v!r} although the call adds at most {float(a)!r} "
+                          f"and removes at most {float(r)!r} there (outcome {oc})", {"well": list(w)})
+                return
         # ---- max / min on the wells the call added to / removed from (reported floats, no tolerance)
         for (j, w), (a, r) in net.items():
             g = sess.geos[j]
